@@ -181,6 +181,44 @@ def drop_opaque(spec: dict, edges) -> set[str]:
 
 
 # ---- running -------------------------------------------------------------------------------------
+def _child(conn, spec, seed, wd, timeout, shuffle):
+    try:
+        conn.send(wfgen.run_spec(spec, seed=seed, workdir=wd, timeout=timeout, shuffle=shuffle))
+    except BaseException as e:  # noqa: BLE001
+        conn.send({"seed": seed, "outcome": {"kind": "harness-error", "detail": f"{type(e).__name__}: {e}"}})
+    finally:
+        conn.close()
+        os._exit(0)       # do not run the parent's atexit handlers / do not wait for stray threads
+
+
+def run_isolated(spec: dict, seed: int, wd: str, timeout: float, shuffle: bool) -> dict:
+    """`wfgen.run_spec` in a forked child with a hard wall-clock bound. The implementation's own hangs are detected
+    inside run_spec (watchdog on executor.run()); the hard bound only protects the check against a harness / cleanup
+    hang (stray database thread, event-loop shutdown): such a run is reported as a harness error, never as a pass."""
+    import multiprocessing as mp
+
+    ctx = mp.get_context("fork")
+    parent, child = ctx.Pipe(duplex=False)
+    proc = ctx.Process(target=_child, args=(child, spec, seed, wd, timeout, shuffle), daemon=True)
+    proc.start()
+    child.close()
+    hard = timeout * 2 + 90
+    try:
+        if parent.poll(hard):
+            res = parent.recv()
+        else:
+            res = {"seed": seed, "outcome": {"kind": "harness-error", "detail": f"run_spec did not come back within {hard:.0f}s (killed)"}}
+    except (EOFError, OSError) as e:
+        res = {"seed": seed, "outcome": {"kind": "harness-error", "detail": f"worker died: {e!r}"}}
+    finally:
+        if proc.is_alive():
+            proc.kill()
+        proc.join(5)
+        parent.close()
+    return res
+
+
+
 def run_schedules(spec: dict, seeds: list[int], scratch: str, timeout: float = 30.0, plain_first: bool = True,
                   confirm_hangs: bool = True) -> list[dict]:
     """the spec under each PRNG schedule (plus, first, the default asyncio order)"""
@@ -189,12 +227,12 @@ def run_schedules(spec: dict, seeds: list[int], scratch: str, timeout: float = 3
     for seed, shuffle in plan:
         wd = tempfile.mkdtemp(prefix="wf-", dir=scratch)
         try:
-            res = wfgen.run_spec(spec, seed=seed, workdir=wd, timeout=timeout, shuffle=shuffle)
+            res = run_isolated(spec, seed, wd, timeout, shuffle)
             if res["outcome"]["kind"] == "hang" and confirm_hangs:
                 # a genuine deadlock reproduces under the same schedule; a slow machine does not: run again, 3x the time
                 shutil.rmtree(wd, ignore_errors=True)
                 os.makedirs(wd, exist_ok=True)
-                res2 = wfgen.run_spec(spec, seed=seed, workdir=wd, timeout=timeout * 3, shuffle=shuffle)
+                res2 = run_isolated(spec, seed, wd, timeout * 3, shuffle)
                 if res2["outcome"]["kind"] != "hang":
                     res2["retried_after_timeout"] = True
                 res = res2
